@@ -459,7 +459,13 @@ def direct_tags():
         c = pool.count(True)
         for f, text in ((attempt(lambda: formula(a)), "formula(%s)" % atom_expr(a)),
                         (attempt(lambda: formula({a: c})), "formula({%s: %r})" % (atom_expr(a), c)),
-                        (attempt(lambda: formula(atom_text(a) + num(c))), "formula(%r)" % (atom_text(a) + num(c)))):
+                        (attempt(lambda: formula(atom_text(a) + num(c))), "formula(%r)" % (atom_text(a) + num(c))),
+                        # one kind of atom spelled as several terms, with a leading count, or inside groups
+                        (attempt(lambda: formula("2" + atom_text(a))), "formula(%r)" % ("2" + atom_text(a))),
+                        (attempt(lambda: formula(atom_text(a) + " " + atom_text(a) + "3")), "formula(%r)" % (atom_text(a) + " " + atom_text(a) + "3")),
+                        (attempt(lambda: formula("(" + atom_text(a) + "2)3")), "formula(%r)" % ("(" + atom_text(a) + "2)3")),
+                        (attempt(lambda: formula([(2, [(c, a)])])), "formula([(2, [(%r, %s)])])" % (c, atom_expr(a))),
+                        (attempt(lambda: formula([(1, a), (c, a)])), "formula([(1, %s), (%r, %s)])" % (atom_expr(a), c, atom_expr(a)))):
             if isinstance(f, Exception) or f.density != a.density:
                 fail("C12:single-atom-default", "%s has density %r, the atom has %r" % (text, getattr(f, "density", f), a.density), text)
 
